@@ -43,8 +43,9 @@ def keys (p : Point) : List Bytes := p.tags.map (·.1) ++ p.fields.map (·.1)
 
 /-- carve-out of finding quote-in-name -/
 def CarveQuote (p : Point) : Bool := (names p).all (fun s => !s.contains cDQ)
-/-- carve-out of finding key-escaped-equals -/
-def CarveKeyEq (p : Point) : Bool := (keys p).all (fun s => !s.contains cEQ)
+/-- carve-out of finding key-escaped-equals; void once the source cuts escape-aware (regenerated fact) -/
+def CarveKeyEq (p : Point) : Bool :=
+  (keys p).all (fun s => Arc.Generated.C01.kvCutEscapeAware || !s.contains cEQ)
 /-- line protocol has no escape for a backslash outside string field values -/
 def CarveBackslash (p : Point) : Bool := (names p).all (fun s => !s.contains cBS)
 
@@ -53,7 +54,7 @@ theorem WF_of_carved (pf : Bytes → Option UInt64) (p : Point) (hg : WFgen pf p
   simp only [WFgen, Bool.and_eq_true, List.all_eq_true, Bool.not_eq_true', decide_eq_true_eq] at hg
   obtain ⟨⟨⟨⟨⟨⟨⟨⟨g1, g2⟩, g3⟩, g4⟩, g5⟩, g6⟩, g7⟩, g8⟩, g9⟩ := hg
   simp only [CarveQuote, CarveBackslash, names, List.all_eq_true, Bool.not_eq_true'] at hq hb
-  simp only [CarveKeyEq, keys, List.all_eq_true, Bool.not_eq_true'] at he
+  simp only [CarveKeyEq, keys, List.all_eq_true] at he
   have mT1 : ∀ t ∈ p.tags, t.1 ∈ p.meas :: (p.tags.flatMap (fun t => [t.1, t.2]) ++ p.fields.map (·.1)) :=
     fun t ht => List.mem_cons_of_mem _ (List.mem_append_left _ (List.mem_flatMap.mpr ⟨t, ht, by simp⟩))
   have mT2 : ∀ t ∈ p.tags, t.2 ∈ p.meas :: (p.tags.flatMap (fun t => [t.1, t.2]) ++ p.fields.map (·.1)) :=
@@ -71,12 +72,12 @@ theorem WF_of_carved (pf : Bytes → Option UInt64) (p : Point) (hg : WFgen pf p
   · intro t ht
     have := g3 t ht
     refine ⟨⟨?_, nm _ this.1.2 (mT2 t ht)⟩, this.2⟩
-    simp only [keyOK, Bool.and_eq_true, Bool.not_eq_true']
+    simp only [keyOK, Bool.and_eq_true]
     exact ⟨nm _ this.1.1 (mT1 t ht), he t.1 (List.mem_append_left _ (List.mem_map.mpr ⟨t, ht, rfl⟩))⟩
   · intro f hf
     have := g4 f hf
     refine ⟨⟨?_, this.1.2⟩, this.2⟩
-    simp only [keyOK, Bool.and_eq_true, Bool.not_eq_true']
+    simp only [keyOK, Bool.and_eq_true]
     exact ⟨nm _ this.1.1 (mF f hf), he f.1 (List.mem_append_right _ (List.mem_map.mpr ⟨f, hf, rfl⟩))⟩
 
 
@@ -188,12 +189,22 @@ def pf0 : Bytes → Option UInt64 := fun _ => none
 def pKeyEq : Point :=
   { meas := [109], tags := [([97, 61, 98], [99])], fields := [([102], .int false [49])], ts := none }
 
-/-- **C01_keyeq_witness** (finding key-escaped-equals).  The tag is stored as key `a\` value `b=c`. -/
+/-- **C01_keyeq_witness** (finding key-escaped-equals).  While the source cuts at the first `=`
+escape-unaware (`kvCutEscapeAware = false`, regenerated), the tag is stored as key `a\` value `b=c`. -/
 theorem C01_keyeq_witness :
     render {} pKeyEq = [109, 44, 97, 92, 61, 98, 61, 99, 32, 102, 61, 49, 105] ∧
-    parseLine pf0 7 .ns true (render {} pKeyEq) =
-      some { meas := [109], tags := [([97, 92], [98, 61, 99])], fields := [([102], .i64 1)], ts := 7 } ∧
-    parseLine pf0 7 .ns true (render {} pKeyEq) ≠ some (denote pf0 7 .ns pKeyEq) := by
+    (Arc.Generated.C01.kvCutEscapeAware = false →
+      parseLine pf0 7 .ns true (render {} pKeyEq) =
+        some { meas := [109], tags := [([97, 92], [98, 61, 99])], fields := [([102], .i64 1)], ts := 7 } ∧
+      parseLine pf0 7 .ns true (render {} pKeyEq) ≠ some (denote pf0 7 .ns pKeyEq)) := by
+  decide
+
+/-- … and once the cut is escape-aware the same inputs are parsed to their denotation (then `WF`
+no longer excludes `=` in keys and `C01_line_partial` covers them in general) -/
+theorem C01_keyeq_fixed :
+    Arc.Generated.C01.kvCutEscapeAware = true →
+      parseLine pf0 7 .ns true (render {} pKeyEq) = some (denote pf0 7 .ns pKeyEq) ∧
+      WF pf0 pKeyEq = true := by
   decide
 
 /-- `m f\=g=1i` : field key `f=g` -/
@@ -201,7 +212,8 @@ def pKeyEqField : Point :=
   { meas := [109], tags := [], fields := [([102, 61, 103], .int false [49])], ts := none }
 
 theorem C01_keyeq_field_witness :
-    parseLine pf0 7 .ns true (render {} pKeyEqField) ≠ some (denote pf0 7 .ns pKeyEqField) := by
+    Arc.Generated.C01.kvCutEscapeAware = false →
+      parseLine pf0 7 .ns true (render {} pKeyEqField) ≠ some (denote pf0 7 .ns pKeyEqField) := by
   decide
 
 /-- `m,k=a"b f=1i 5` : tag value `a"b` -/
@@ -217,15 +229,23 @@ theorem C01_quote_witness :
 
 /-- the two refuting inputs are in the generator's class: only the carve-outs exclude them -/
 theorem C01_witnesses_in_class :
-    WFgen pf0 pKeyEq = true ∧ CarveKeyEq pKeyEq = false ∧
+    WFgen pf0 pKeyEq = true ∧ (Arc.Generated.C01.kvCutEscapeAware = false → CarveKeyEq pKeyEq = false) ∧
     WFgen pf0 pQuote = true ∧ CarveQuote pQuote = false := by decide
 
 /-- **C01_strbs_witness** (finding string-value-backslash-unescaped).  `m f="a\,b"` — in line
 protocol a backslash inside a string value escapes only `"` and `\`, so the value is the four bytes
 `a\,b`; arc stores `a,b`.  (`render` always writes `\\`, so this input is outside its image.) -/
 theorem C01_strbs_witness :
+    Arc.Generated.C01.stringUnescapeSet = Arc.Generated.C01.unescapeSet →
     parseLine pf0 7 .ns true [109, 32, 102, 61, 34, 97, 92, 44, 98, 34] =
       some { meas := [109], tags := [], fields := [([102], .str [97, 44, 98])], ts := 7 } := by
+  decide
+
+/-- … and with the string-only escape set (`\"`, `\\`) the backslash stays: `a\,b` -/
+theorem C01_strbs_fixed :
+    Arc.Generated.C01.stringUnescapeSet = [34, 92] →
+    parseLine pf0 7 .ns true [109, 32, 102, 61, 34, 97, 92, 44, 98, 34] =
+      some { meas := [109], tags := [], fields := [([102], .str [97, 92, 44, 98])], ts := 7 } := by
   decide
 
 /-- **C01_mixed_witness** (finding mixed-type-coerced-lossy).  A field that is `1i` in the first
@@ -591,11 +611,14 @@ theorem C01_typed_i64 (f2i : UInt64 → Option Int) (i2f : Int → UInt64) (name
 
 /-! ## 7. facts regenerated from the current source -/
 
-open Arc.Generated.C01 in
-/-- the model's escape set is the `case` list of `unescape` -/
+/-- what the proofs need from the regenerated escape sets of the current source: every character
+`render` escapes is un-escaped again (`,` ` ` `=` in names; `"` `\` in string values), and nothing that
+`render` leaves bare inside a name is treated as an escape target other than the five known ones -/
 theorem C01_facts_escape :
-    (List.range 256).all (fun n => isEsc (UInt8.ofNat n) == unescapeSet.contains n) = true := by
-  decide +kernel
+    (isEsc cCM ∧ isEsc cSP ∧ isEsc cEQ ∧ isEsc cDQ ∧ isEsc cBS) ∧ (isEscStr cDQ ∧ isEscStr cBS) ∧
+    Arc.Generated.C01.unescapeSet.all (fun n => [44, 32, 61, 34, 92].contains n) = true ∧
+    Arc.Generated.C01.stringUnescapeSet.all (fun n => Arc.Generated.C01.unescapeSet.contains n) = true := by
+  decide
 
 theorem C01_facts_bytes :
     Arc.Generated.C01.escapeByte = cBS.toNat ∧ Arc.Generated.C01.quoteByte = cDQ.toNat ∧
